@@ -2,9 +2,9 @@
    Only statements, [exact]s and Print Assumptions live here.
    Model: Model/Validator.v (lvs_validator + CascadeChecker of the FIXED code: own default key storage per
    instance, Ed25519 branch).  Specification: Spec/ChainSpec.v.  *)
-From NDN Require Import Base.Prelude Model.Validator Model.ValidatorConc Spec.ChainSpec.
+From NDN Require Import Base.Prelude Model.Validator Model.ValidatorConc Model.ValidatorMem Spec.ChainSpec.
 From NDN Require Import Proofs.ValidatorProofs Proofs.ValidatorHistory Proofs.ValidatorTie Proofs.ValidatorExamples
-  Proofs.ValidatorTrace Proofs.ValidatorConcProofs.
+  Proofs.ValidatorTrace Proofs.ValidatorConcProofs Proofs.ValidatorMemProofs.
 From NDN Require Generated.ValidatorConsts.
 From NDN Require Properties.C14Findings.   (* keeps the refutation witnesses checked on every run *)
 
@@ -97,6 +97,55 @@ Theorem C14_runs_are_reachable w fuel ops st :
   reachable w (fst (run_history false w fuel st ops)).
 Proof. exact (run_history_reachable w fuel ops st). Qed.
 Print Assumptions C14_runs_are_reachable.
+
+(* the caller's memory (Model/ValidatorMem.v): trust anchors and packets are handed over in buffers the application
+   owns, loads the next wire into (e.g. the anchor of its second validator) and overwrites later.  In ANY state
+   reached by ANY history of loads, overwrites, constructions from buffers and validations, the verdict of instance
+   i on the packet in buffer b is accept <-> Chain under the configuration i was BUILT with ... *)
+Theorem C14_memory_independent w ms fuel i ins b p ms' r tr :
+  mreachable w ms ->
+  nth_error (s_insts (m_st ms)) i = Some ins ->
+  mem_get (m_mem ms) b = Some (Ok p) ->
+  mstep false w fuel ms (MValidate i b) = (ms', Some (BVal r tr)) ->
+  r <> Err EFuel ->
+  (r = Ok true <-> Chain w (trust_of (i_cfg ins)) p).
+Proof. exact (memory_independent w ms fuel i ins b p ms' r tr). Qed.
+Print Assumptions C14_memory_independent.
+Example C14_memory_independent_nonvacuous :
+  mreachable ex_world (fst (mrun false ex_world 5 {| m_mem := []; m_st := init_state |} ex_mops)) /\
+  snd (mrun false ex_world 5 {| m_mem := []; m_st := init_state |} ex_mops) =
+  [ None; Some (BNew (Ok 0%nat)); None; Some (BVal (Ok true) [nC]);
+    None; Some (BNew (Ok 1%nat)); Some (BVal (Ok true) []); Some (BVal (Ok false) [nC; nA]);
+    None; Some (BVal (Ok true) []); None ].
+Proof. exact (conj ex_mreachable ex_mrun). Qed.
+
+(* ... that configuration is computed from the schema and from what the buffer held AT THE CALL, and no later
+   operation (load, overwrite, construction of another validator from the same buffer, validation) changes it *)
+Theorem C14_built_from_what_the_buffer_holds w fuel ms sc b s ms' n :
+  mstep false w fuel ms (MNewLvs sc b s) = (ms', Some (BNew (Ok n))) ->
+  exists a c sid, mem_get (m_mem ms) b = Some a /\ lvs_init w sc a = Ok c /\
+                  nth_error (s_insts (m_st ms')) n = Some {| i_cfg := c; i_sid := sid |}.
+Proof. exact (built_from_what_the_buffer_holds w fuel ms sc b s ms' n). Qed.
+Print Assumptions C14_built_from_what_the_buffer_holds.
+
+Theorem C14_built_config_is_kept lg w fuel ops ms i ins :
+  nth_error (s_insts (m_st ms)) i = Some ins ->
+  nth_error (s_insts (m_st (fst (mrun lg w fuel ms ops)))) i = Some ins.
+Proof. exact (built_config_is_kept_run lg w fuel ops ms i ins). Qed.
+Print Assumptions C14_built_config_is_kept.
+
+(* a history with memory operations IS the history of the calls, each with the buffer content read at the call
+   (what the harness gives to the model and to the oracle for the histories of its caller-memory family) *)
+Theorem C14_memory_history_is_call_history lg w fuel ops ms :
+  m_st (fst (mrun lg w fuel ms ops)) = fst (run_history lg w fuel (m_st ms) (given_ops (m_mem ms) ops)) /\
+  somes (snd (mrun lg w fuel ms ops)) = snd (run_history lg w fuel (m_st ms) (given_ops (m_mem ms) ops)).
+Proof. exact (mrun_is_run_of_given lg w fuel ops ms). Qed.
+Print Assumptions C14_memory_history_is_call_history.
+Example C14_memory_history_is_call_history_nonvacuous :
+  given_ops [] ex_mops =
+  [ ONewLvs ex_schema (Ok A1) SDefault; OValidate 0%nat P; ONewLvs ex_schema (Ok A2) SDefault;
+    OValidate 0%nat P; OValidate 1%nat P; OValidate 0%nat P ].
+Proof. exact ex_given_ops. Qed.
 
 Theorem C14_same_verdict w st1 st2 f1 f2 i1 i2 a b p s1 s2 r1 r2 t1 t2 :
   reachable w st1 -> reachable w st2 ->
